@@ -68,6 +68,10 @@ def main():
             confirmed = False
         else:
             rc, out = sh("git -C /repo apply %s" % os.path.join(dst, "patch.diff"))
+            # evidence files must come from runs on the unchanged tree: keep them aside while the mutant is checked
+            evbak = "/tmp/evidence-bak-%d" % os.getpid()
+            shutil.rmtree(evbak, ignore_errors=True)
+            shutil.copytree(os.path.join(ROOT, "evidence"), evbak)
             try:
                 for c in checks:
                     t0 = time.time()
@@ -79,6 +83,9 @@ def main():
             finally:
                 sh("git -C /repo checkout -- .")
                 sh("rm -rf %s/replays/*" % ROOT)
+                shutil.rmtree(os.path.join(ROOT, "evidence"), ignore_errors=True)
+                shutil.copytree(evbak, os.path.join(ROOT, "evidence"))
+                shutil.rmtree(evbak, ignore_errors=True)
     meta.update(dict(confirmed=confirmed, confirmed_how=ran, base_commit=subprocess.check_output("git -C /repo rev-parse --short HEAD", shell=True, text=True).strip(),
                      detection=detection, detected_by=[c for c, v in detection.items() if v["exit"] == 1 and v["violations"] > 0]))
     json.dump(meta, open(os.path.join(dst, "meta.json"), "w"), indent=1)
